@@ -32,10 +32,27 @@ class Spec:
     seq: Tuple[Tuple[str, Tuple[str, ...]], ...] = ()   # "driver": commands run in order inside this one script, failures recorded not fatal
     fail_undeclared: bool = False       # the fail flag is read without declaring it as a dependency
     post: Tuple[str, ...] = ()          # dependencies requested AFTER the output was written (and redo-stamp has run)
+    arg1: str = ""                      # (set by the reference model) $1 of the rule that matched
+    mkdir: bool = False                 # the script creates its target's directory (a rule of a parent directory building into a directory that does not exist yet)
     bursts: bool = False                # (csum, stdout) the data reaches redo-stamp through a pipe in two bursts, the varying part in the second
     wreck: str = ""                     # the script replaces this directory (its target's parent) by a regular file before it writes its output
     redir: bool = False                 # the script redirects the stderr of its redo-ifchange calls into a file of its own
     sync: Tuple[Tuple[str, str, str], ...] = ()   # E2 only: (position start|mid|end, action wait|set, flag) -- scripts that wait for each other
+
+    def rebase(self, do_dir: str, arg1: str = "") -> "Spec":
+        """names as the reference model uses them: relative to the project root instead of the rule's directory"""
+        import dataclasses
+        import posixpath
+        if not do_dir:
+            return dataclasses.replace(self, arg1=arg1) if arg1 else self
+        f = lambda n: posixpath.normpath(posixpath.join(do_dir, n))
+        sel = None
+        if self.sel:
+            sel = (f(self.sel[0]), tuple((v, tuple(f(d) for d in ds)) for v, ds in self.sel[1]))
+        return dataclasses.replace(
+            self, deps=tuple(f(d) for d in self.deps), sel=sel, ifcreate=tuple(f(d) for d in self.ifcreate),
+            ifcreate_raw=tuple(f(d) for d in self.ifcreate_raw), fail=f(self.fail) if self.fail else None,
+            seq=tuple((c, tuple(f(d) for d in ds)) for c, ds in self.seq), post=tuple(f(d) for d in self.post), arg1=arg1)
 
     def subst(self, arg2: str) -> "Spec":
         import dataclasses
@@ -77,7 +94,12 @@ def script_text(spec: Spec, variant: int, dofile: str, gates: bool = False) -> s
     itself (not waiting for a nested redo-ifchange)."""
     L = []
     L.append(f"# rv-generated dofile={dofile} variant={variant} tag={spec.tag}")
-    L.append('echo "B $1 $REDO_RUNID" >> "$RV_TRACE"')
+    # the target's name relative to the project root (traces, kill points and gates name targets that way; $1 is relative to
+    # the rule's directory)
+    L.append('rv_n="$1"; if [ -n "${RV_ROOT:-}" ]; then rv_d="${PWD#"$RV_ROOT"}"; rv_d="${rv_d#/}"; rv_n="${rv_d:+$rv_d/}$1"; fi')
+    L.append('echo "B $rv_n $REDO_RUNID" >> "$RV_TRACE"')
+    if spec.mkdir:
+        L.append('mkdir -p "$(dirname "$3")"')
     # interrupted builds (E1 op "kbuild"): when RV_KILL names this target and a position, the script SIGKILLs its whole
     # process group -- the redo processes above it included -- at that position: 0 = start, i = after the i-th
     # dependency group (Model.script_deps order; the last one is "just before the output is written"), e = after the
@@ -85,7 +107,7 @@ def script_text(spec: Spec, variant: int, dofile: str, gates: bool = False) -> s
     # RV_KILL=<target>:<pos>:p kills only the redo process that runs this script ($PPID); the orphaned script waits until
     # that process is gone and then carries on to its end.  (The redo processes further up cannot finish before the orphan
     # does: it has inherited the pipes whose end-of-file tells them that their job is over.)
-    L.append('rv_t="$1"; rvk() { if [ "${RV_KILL:-}" = "$rv_t:$1" ]; then kill -KILL 0; sleep 30; fi; '
+    L.append('rv_t="$rv_n"; rvk() { if [ "${RV_KILL:-}" = "$rv_t:$1" ]; then kill -KILL 0; sleep 30; fi; '
              'if [ "${RV_KILL:-}" = "$rv_t:$1:p" ]; then rv_pp=$PPID; kill -KILL $rv_pp; '
              'while kill -0 "$rv_pp" 2>/dev/null; do sleep 0.01; done; fi; }')
     L.append('rvk 0')
@@ -95,10 +117,10 @@ def script_text(spec: Spec, variant: int, dofile: str, gates: bool = False) -> s
         g[0] += 1
         L.append('rvk %d' % g[0])
     if gates:
-        L.append('trap \'vgate n "end $1"\' EXIT')
-        L.append('vgate n "begin $1"')
-        L.append('vgate n "work-begin $1"')
-        L.append('vgate p "s:$1"')
+        L.append('trap \'vgate n "end $rv_n"\' EXIT')
+        L.append('vgate n "begin $rv_n"')
+        L.append('vgate n "work-begin $rv_n"')
+        L.append('vgate p "s:$rv_n"')
     def sync(pos):
         # scripts that wait for each other (scheduled executions only): `set` creates a flag, `wait` parks the script at
         # a gate the scheduler enables once the flag exists -- the scenario's way of saying "this job takes longer than that"
@@ -108,15 +130,15 @@ def script_text(spec: Spec, variant: int, dofile: str, gates: bool = False) -> s
             if p_ != pos:
                 continue
             if act == "set":
-                L.append(': > "$RV_FLAGS/%s"; vgate n "set:%s $1"' % (flag, flag))
+                L.append(': > "$RV_FLAGS/%s"; vgate n "set:%s $rv_n"' % (flag, flag))
             elif act == "ask":
                 # the script parks; before it goes on the harness performs the scenario's environment action of that name
                 # (e.g. the user edits a source at exactly this moment), once
-                L.append('vgate p "ask:%s $1"' % flag)
+                L.append('vgate p "ask:%s $rv_n"' % flag)
             elif act == "sleep":
-                L.append('vgate p "sleep:%s $1"' % flag)   # a long piece of work: outlasts that many timer expiries
+                L.append('vgate p "sleep:%s $rv_n"' % flag)   # a long piece of work: outlasts that many timer expiries
             else:
-                L.append('vgate p "wait:%s $1"' % flag)   # still "working": a slow job keeps its token
+                L.append('vgate p "wait:%s $rv_n"' % flag)   # still "working": a slow job keeps its token
     sync("start")
     if spec.kind == "always":
         L.append("redo-always")
@@ -124,13 +146,13 @@ def script_text(spec: Spec, variant: int, dofile: str, gates: bool = False) -> s
         L.append('echo "L $1 1 whole line" >&2')
         L.append('printf "L $1 2 first half-" >&2')
         if gates:
-            L.append('vgate p "h:$1"')
+            L.append('vgate p "h:$rv_n"')
         L.append('printf "second half\\n" >&2')
         # one line written in four pieces, a scheduling point after each piece
         for piece in ("L $1 5 p1-", "p2-", "p3-"):
             L.append('printf "%s" >&2' % piece)
             if gates:
-                L.append('vgate p "h:$1"')
+                L.append('vgate p "h:$rv_n"')
         L.append('printf "p4\\n" >&2')
         L.append('printf "L $1 3 %s\\n" "$(head -c 20000 /dev/zero | tr \'\\0\' x)" >&2')
         if spec.noise == 2:
@@ -143,9 +165,9 @@ def script_text(spec: Spec, variant: int, dofile: str, gates: bool = False) -> s
     def ifchange(names):
         q = " ".join('"%s"' % n for n in names)
         rd = ' 2>>"$1.err"' if spec.redir else ""
-        core = (f'redo-ifchange {q}{rd} || {{ rc=$?; echo "R $1 $rc" >> "$RV_TRACE"; exit $rc; }}')
+        core = (f'redo-ifchange {q}{rd} || {{ rc=$?; echo "R $rv_n $rc" >> "$RV_TRACE"; exit $rc; }}')
         if gates:
-            return 'vgate n "work-end $1"; ' + core + '; vgate n "work-begin $1"; vgate p "r:$1"'
+            return 'vgate n "work-end $rv_n"; ' + core + '; vgate n "work-begin $rv_n"; vgate p "r:$rv_n"'
         return core
 
     L.append('c=""')
@@ -189,14 +211,14 @@ def script_text(spec: Spec, variant: int, dofile: str, gates: bool = False) -> s
         kp()
     for w in spec.ifcreate_raw:
         w = w.replace("%", "$2")
-        L.append(f'redo-ifcreate "{w}" || {{ rc=$?; echo "R $1 $rc" >> "$RV_TRACE"; exit $rc; }}')
+        L.append(f'redo-ifcreate "{w}" || {{ rc=$?; echo "R $rv_n $rc" >> "$RV_TRACE"; exit $rc; }}')
         L.append('c="$c~"')
         kp()
     for i, (cmd, names) in enumerate(spec.seq):
         q = " ".join('"%s"' % n.replace("%", "$2") for n in names)
         tool = "redo-ifchange" if cmd == "ifchange" else "redo"
-        core = f'rc=0; {tool} {q} || rc=$?; echo "Q $1 {i} $rc" >> "$RV_TRACE"'
-        L.append(('vgate n "work-end $1"; ' + core + '; vgate n "work-begin $1"') if gates else core)
+        core = f'rc=0; {tool} {q} || rc=$?; echo "Q $rv_n {i} $rc" >> "$RV_TRACE"'
+        L.append(('vgate n "work-end $rv_n"; ' + core + '; vgate n "work-begin $rv_n"') if gates else core)
     if spec.seq:
         kp()
     if spec.fail:
@@ -204,8 +226,8 @@ def script_text(spec: Spec, variant: int, dofile: str, gates: bool = False) -> s
         if not spec.fail_undeclared:
             L.append(ifchange([fl]))
             kp()
-        we = 'vgate n "work-end $1"; ' if gates else ""
-        L.append(f'if [ "$(cat "{fl}")" = 1 ]; then echo "F $1" >> "$RV_TRACE"; {we}exit 7; fi')
+        we = 'vgate n "work-end $rv_n"; ' if gates else ""
+        L.append(f'if [ "$(cat "{fl}")" = 1 ]; then echo "F $rv_n" >> "$RV_TRACE"; {we}exit 7; fi')
         kp()
     sync("mid")
     if spec.wreck:
@@ -242,9 +264,9 @@ def script_text(spec: Spec, variant: int, dofile: str, gates: bool = False) -> s
         if spec.noise == 4:
             L.append('printf "L $1 6 no newline at the end" >&2')   # the script's last output is an unterminated line
     if gates:
-        L.append('vgate p "e:$1"')
-        L.append('vgate n "work-end $1"')
-    L.append('echo "E $1" >> "$RV_TRACE"')
+        L.append('vgate p "e:$rv_n"')
+        L.append('vgate n "work-end $rv_n"')
+    L.append('echo "E $rv_n" >> "$RV_TRACE"')
     return "\n".join(L) + "\n"
 
 
@@ -382,6 +404,12 @@ def curated() -> Dict[str, World]:
         {"top.do": [S(deps=["mid"], out="append")], "mid.do": [S(deps=["s"], out="append")]},
         ["top", "mid"], ["top", "mid"],
         prefixes=[[["ifchange", ["top"]], ["edit", "s", "1"]]])
+    W["autodir"] = World(   # a rule of the parent directory builds into a directory that does not exist before the first build;
+        # later a rule of higher priority appears inside that directory (out/default.txt.do, out/x.txt.do), and goes again
+        "autodir", {"s": ["0", "1"]},
+        {"default.txt.do": [S(deps=["s"], mkdir=True, out="file")], "out/default.txt.do": [S(deps=["../s"], tag="inner")],
+         "out/x.txt.do": [S(deps=["../s"], tag="own", out="file")], "top.do": [S(deps=["out/x.txt"])]},
+        ["top", "out/x.txt"], ["top", "out/x.txt"])
     W["csum-burst"] = World(   # the checksummed node's data reaches redo-stamp through a pipe, in two bursts
         "csum-burst", {"s": V3},
         {"top.do": [S(deps=["c"])], "c.do": [S(kind="csum", deps=["s"], bursts=True)]},
@@ -405,7 +433,7 @@ def curated() -> Dict[str, World]:
 
 
 # which .do files start absent (can be created by an action)
-DOFILES_ABSENT = {"default": ["p.x.do"]}
+DOFILES_ABSENT = {"default": ["p.x.do"], "autodir": ["out/default.txt.do", "out/x.txt.do"]}
 
 
 # ---------------------------------------------------------------------------
